@@ -1,0 +1,53 @@
+//go:build verif
+
+package rueidis
+
+// Add-only exports for the verification harness (RESP wire-format family: C12, C13, C14, C17, C29).
+// Nothing here changes behaviour; the file is compiled only with the build tag `verif`.
+
+import (
+	"bufio"
+	"io"
+)
+
+// VerifReadNextMessage runs the unexported readNextMessage.
+func VerifReadNextMessage(r *bufio.Reader) (RedisMessage, error) { return readNextMessage(r) }
+
+// VerifStreamTo runs the unexported streamTo.
+func VerifStreamTo(r *bufio.Reader, w io.Writer) (int64, error, bool) { return streamTo(r, w) }
+
+// VerifWriteCmd / VerifWriteN / VerifWriteB / VerifWriteS run the unexported writers.
+func VerifWriteCmd(o *bufio.Writer, cmd []string) error    { return writeCmd(o, cmd) }
+func VerifFlushCmd(o *bufio.Writer, cmd []string) error    { return flushCmd(o, cmd) }
+func VerifWriteN(o *bufio.Writer, id byte, n int) error    { return writeN(o, id, n) }
+func VerifWriteB(o *bufio.Writer, id byte, s string) error { return writeB(o, id, s) }
+func VerifWriteS(o *bufio.Writer, id byte, s string) error { return writeS(o, id, s) }
+
+// Field accessors of RedisMessage.
+func VerifMsgTyp(m *RedisMessage) byte              { return m.typ }
+func VerifMsgIntlen(m *RedisMessage) int64          { return m.intlen }
+func VerifMsgString(m *RedisMessage) string         { return m.string() }
+func VerifMsgValues(m *RedisMessage) []RedisMessage { return m.values() }
+func VerifMsgHasBytes(m *RedisMessage) bool         { return m.bytes != nil }
+func VerifMsgHasArray(m *RedisMessage) bool         { return m.array != nil }
+func VerifMsgAttrs(m *RedisMessage) *RedisMessage {
+	if m.attrs == cacheMark {
+		return nil
+	}
+	return m.attrs
+}
+func VerifMsgIsCacheMark(m *RedisMessage) bool { return m.attrs == cacheMark }
+func VerifMsgTTL(m *RedisMessage) [7]byte      { return m.ttl }
+
+// Constructors.
+func VerifStrMsg(typ byte, s string) RedisMessage            { return strmsg(typ, s) }
+func VerifSliceMsg(typ byte, vs []RedisMessage) RedisMessage { return slicemsg(typ, vs) }
+func VerifIntMsg(typ byte, v int64) RedisMessage             { return RedisMessage{typ: typ, intlen: v} }
+func VerifSetExpireAt(m *RedisMessage, pxat int64)           { m.setExpireAt(pxat) }
+func VerifGetExpireAt(m *RedisMessage) int64                 { return m.getExpireAt() }
+func VerifCacheSizeRaw(m *RedisMessage) int                  { return m.cachesize() }
+func VerifIsNilErr(err error) bool                           { return err == Nil }
+func VerifIsOldNull(err error) bool                          { return err == errOldNull }
+func VerifIsChunked(err error) bool                          { return err == errChunked }
+func VerifMessageStructSize() int                            { return messageStructSize }
+func VerifRedisErrorMsg(e *RedisError) *RedisMessage         { return (*RedisMessage)(e) }
